@@ -37,6 +37,9 @@ pub enum ContentK {
     EdgeBelow,
     /// two offered with different expiries, one received
     Three,
+    /// a claimed fee rate of 10 sat/kw, at which the trim limit is 337 sat, and a received HTLC
+    /// of 345 sat: below every fixed "dust" constant one might confuse the limit with
+    SmallAtLowRate,
 }
 
 #[derive(Clone, Debug, PartialEq, Eq, Hash, Serialize, Deserialize)]
@@ -94,6 +97,12 @@ fn content_for(v: &SetupV, k: &ContentK) -> Content {
         ContentK::EdgeAbove => balanced(v, ht, vec![], vec![h(edge_above, 1, 50)], 1000),
         ContentK::EdgeBelow => balanced(v, ht, vec![], vec![h(edge_below, 1, 50)], 1000),
         ContentK::Three => balanced(v, ht, vec![h(20_000, 2, 60), h(21_000, 3, 61)], vec![h(30_000, 1, 55)], 2000),
+        ContentK::SmallAtLowRate => {
+            // the fee that is actually paid stays in the policy range; only the claimed rate is low
+            let mut c = balanced(v, ht, vec![], vec![h(345, 1, 50)], 1000);
+            c.feerate = 10;
+            c
+        }
     }
 }
 
@@ -575,8 +584,8 @@ pub fn main(tier: Tier) -> i32 {
         }
     }
     let kinds: Vec<ContentK> = match tier {
-        Tier::Quick => vec![ContentK::NoHtlc, ContentK::Offered, ContentK::Received, ContentK::TwoSameReceived, ContentK::Both, ContentK::EdgeAbove, ContentK::EdgeBelow],
-        Tier::Thorough => vec![ContentK::NoHtlc, ContentK::Offered, ContentK::Received, ContentK::TwoSameReceived, ContentK::Both, ContentK::EdgeAbove, ContentK::EdgeBelow, ContentK::Three],
+        Tier::Quick => vec![ContentK::NoHtlc, ContentK::Offered, ContentK::Received, ContentK::TwoSameReceived, ContentK::Both, ContentK::EdgeAbove, ContentK::EdgeBelow, ContentK::SmallAtLowRate],
+        Tier::Thorough => vec![ContentK::NoHtlc, ContentK::Offered, ContentK::Received, ContentK::TwoSameReceived, ContentK::Both, ContentK::EdgeAbove, ContentK::EdgeBelow, ContentK::Three, ContentK::SmallAtLowRate],
     };
     // every base without and with a restart of the signer between the prefix and the request
     let bases: Vec<(SetupV, ContentK, bool)> = setups.iter().flat_map(|v| kinds.iter().flat_map(move |k| [false, true].into_iter().map(move |r| (v.clone(), k.clone(), r)))).collect();
@@ -609,7 +618,7 @@ pub fn main(tier: Tier) -> i32 {
             if !*restarted {
                 accepted_bases.push((v.clone(), k.clone()));
             }
-        } else if *k != ContentK::EdgeBelow {
+        } else if *k != ContentK::EdgeBelow && !(*k == ContentK::SmallAtLowRate && v.anchors) {
             run.vacuous(&format!("base {:?} {:?} was not accepted by the semantic entry point ({})", v, k, r.class));
         }
     }
